@@ -515,6 +515,24 @@ fn run() {
                 let gate = f.channel().gate.rsplit('/').take(2).collect::<Vec<_>>().join("<");
                 r.violation(&format!("mac:{kind}:{}:{gate}", c.driver), &what, json!({"part":"mac","driver":c.driver,"records":c.records,"seed":c.seed,"fault":f.json()}));
             } else {
+                if class == "harmless" && c.driver != "fp31" {
+                    // Unnoticed deviations are the 1/|F| event: with the 31-element test field (whose
+                    // MAC key r is 0 for some seeds, which makes every error on w vanish) they occur, in
+                    // the 32-bit and 255-bit fields they must not
+                    let gate = f.channel().gate.rsplit('/').take(2).collect::<Vec<_>>().join("<");
+                    r.violation(
+                        &format!("mac:deviation-unnoticed:{}:{gate}", c.driver),
+                        &format!("driver {} ({} records): helper {} applied {} and both honest helpers validated and opened the untampered values", c.driver, c.records, f.channel().source, f.json()["kind"]),
+                        json!({"part":"mac","driver":c.driver,"records":c.records,"seed":c.seed,"fault":f.json()}),
+                    );
+                    continue;
+                }
+                if class == "harmless" {
+                    r.set("harmless_deviations", format!("{}:{}:{}", c.driver, f.channel().gate.rsplit('/').take(2).collect::<Vec<_>>().join("<"), f.json()["kind"]));
+                    if std::env::var("VERIF_VERBOSE").is_ok() {
+                        eprintln!("harmless: {} {}", c.driver, f.json());
+                    }
+                }
                 *hist.entry(class).or_default() += 1;
             }
         }
@@ -528,3 +546,4 @@ fn run() {
     r.flag("exhaustive", true);
     r.finish();
 }
+
